@@ -235,6 +235,24 @@ class Ctx:
         if line not in self.known:
             self.known.append(line)
 
+    def match_finding(self, family, fields, what=""):
+        """An open known finding of this property whose match predicate covers the failing case:
+        entry["match"] maps field names to a value or a list of admissible values (all must hold
+        for `fields`), entry["what_contains"] (optional) must occur in the failure description.
+        A different failure of the same property does not match and is reported as a violation."""
+        for f in self.open_findings(family):
+            m = f.get("match", {})
+            ok = True
+            for k, v in m.items():
+                x = fields.get(k)
+                if isinstance(v, list):
+                    ok = ok and x in v
+                else:
+                    ok = ok and x == v
+            if ok and f.get("what_contains", "") in what:
+                return f
+        return None
+
     def open_findings(self, family=None):
         return [f for f in self.findings if f.get("property") == self.pid and f.get("status") == "open"
                 and (family is None or f.get("family") == family)]
